@@ -73,7 +73,7 @@ Proof. vm_compute. reflexivity. Qed.
      Globals          ~  a stack of lookup functions name -> value.
    Each theorem: the output lists agree AND the abstraction of the final concrete state is the final abstract state
    (`erel` / `frel`: same lookup function, pointwise). *)
-From TSG Require Import Spec.ContainerSpec Proofs.ContainerRefine.
+From TSG Require Import Spec.ContainerSpec Spec.GraphSpec Proofs.ContainerRefine Proofs.GraphRefine.
 
 (* ---- (1) edges ---- *)
 Theorem edges_refine : forall ops,
@@ -154,8 +154,35 @@ Theorem globals_refine : forall ops,
   frel (cs_vars (fst (run gstep cinit ops))) (fst (run gspec [gempty] ops)).
 Proof. intros ops. apply globals_refine_from. repeat constructor. Qed.
 
+(* ---- the WHOLE public operation language (the histories of the correspondence stream: add_graph_node, add_edge,
+   get_edge, get_edge_mut, Attributes, iter_nodes, iter_edges, node_count, edge_count, Variables) against
+   Spec/GraphSpec.v: a list of nodes, each with an UNORDERED finite map sink -> attributes (`espec`) ---- *)
+Theorem graph_refine : forall ops,
+  crun cinit ops = snd (run sstep sinit ops) /\
+  srel (cstate_after cinit ops) (fst (run sstep sinit ops)).
+Proof.
+  intros ops. pose proof (graph_refine_from cinit sinit ops srel_init) as H. rewrite run_cstep in H. exact H.
+Qed.
+
+(* read off the final states: same node count, same node attributes, and per node the sorted vector has the lookup
+   function, the key set and the size of the abstract edge map *)
+Theorem graph_refine_nodes : forall ops a n,
+  gnode_at (cs_graph (cstate_after cinit ops)) a = Some n ->
+  exists sn, snode_at (fst (run sstep sinit ops)) a = Some sn /\
+             g_attrs n = sn_attrs sn /\
+             (forall b, edges_get b (g_edges n) = em_get b (sn_edges sn)) /\
+             map fst (g_edges n) = nsort (em_keys (sn_edges sn)) /\
+             length (g_edges n) = length (sn_edges sn).
+Proof.
+  intros ops a n E. destruct (graph_refine ops) as [_ [Hg _]]. unfold gnode_at in E.
+  destruct (Forall2_nth_l _ _ _ _ _ Hg E) as (sn & Esn & Ha & He). exists sn. split; [exact Esn|]. split; [exact Ha|].
+  split; [apply He|]. split; [apply erel_iter, He|apply erel_length, He].
+Qed.
+
 (* ---- (4) the headline ---- *)
 Theorem containers_refine_models :
+  (forall ops : list cop,
+     crun cinit ops = snd (run sstep sinit ops) /\ srel (cstate_after cinit ops) (fst (run sstep sinit ops))) /\
   (forall ops : list eop,
      snd (run estep [] ops) = snd (run espec [] ops) /\ erel (fst (run estep [] ops)) (fst (run espec [] ops))) /\
   (forall ops : list cop,
@@ -168,7 +195,7 @@ Theorem containers_refine_models :
      snd (attrs_add m k v) = snd (spec_attrs_add (abs_attrs m) k v) /\
      forall k', abs_attrs (fst (attrs_add m k v)) k' = fst (spec_attrs_add (abs_attrs m) k v) k').
 Proof.
-  split; [exact edges_refine|]. split; [exact nodes_refine|]. split; [exact vars_refine|]. split; [exact globals_refine|exact attrs_refines].
+  split; [exact graph_refine|]. split; [exact edges_refine|]. split; [exact nodes_refine|]. split; [exact vars_refine|]. split; [exact globals_refine|exact attrs_refines].
 Qed.
 
 (* the fold_left runner on the public language is the `crun` of the correspondence stream *)
@@ -219,3 +246,26 @@ Example c17_nodes_globals_nonvacuous :
     [None; Some (RBool true); None; Some RUnit; Some (RBool true); Some (ROptVal (Some (VInt 2))); None;
      Some RUnit; Some (ROptVal (Some (VInt 1))); Some RUnit; None; None; Some RUnit; Some (ROptVal None)].
 Proof. vm_compute. split; reflexivity. Qed.
+
+(* the whole language: 11 nodes, 10 edges out of node 0 in scrambled order (past the inline capacity), a repeated edge,
+   an out-of-range edge, iteration, count, attribute conflict on an edge; the abstract edge map of node 0 keeps the
+   insertion order, the concrete vector is sorted, the outputs agree *)
+Definition c17_public_history : list cop :=
+  [OAddNode; OAddNode; OAddNode; OAddNode; OAddNode; OAddNode; OAddNode; OAddNode; OAddNode; OAddNode; OAddNode;
+   OAddEdge 0 5; OAddEdge 0 3; OAddEdge 0 9; OAddEdge 0 1; OAddEdge 0 7; OAddEdge 0 2; OAddEdge 0 8; OAddEdge 0 4;
+   OAddEdge 0 6; OAddEdge 0 10; OAddEdge 0 3; OAddEdge 0 11; OIterEdges 0; OEdgeCount 0; OEdgeCount 1;
+   OEdgeAttrAdd 0 3 [97] (VInt 1); OEdgeAttrAdd 0 3 [97] (VInt 2); OEdgeAttrGet 0 3 [97]; OGetEdge 0 0; OGetEdge 0 10;
+   OVarAdd [97] (VInt 1); OVarNested; OVarGet [97]; OVarAdd [97] (VInt 2); OVarGet [97]; OVarPop; OVarGet [97]; OVarIter].
+Example c17_public_nonvacuous :
+  skipn 11 (crun cinit c17_public_history) =
+    [RBool true; RBool true; RBool true; RBool true; RBool true; RBool true; RBool true; RBool true; RBool true; RBool true;
+     RBool false; RSkipped; RNodes [1; 2; 3; 4; 5; 6; 7; 8; 9; 10]; RCount 10; RCount 0;
+     RAddAttr None; RAddAttr (Some (VInt 1)); ROptVal (Some (VInt 2)); RBool false; RBool true;
+     RBool true; RUnit; ROptVal (Some (VInt 1)); RBool true; ROptVal (Some (VInt 2)); RUnit; ROptVal (Some (VInt 1));
+     RAttrs [([97], VInt 1)]] /\
+  snd (run sstep sinit c17_public_history) = crun cinit c17_public_history /\
+  option_map (fun sn => map fst (sn_edges sn)) (snode_at (fst (run sstep sinit c17_public_history)) 0)
+    = Some [5; 3; 9; 1; 7; 2; 8; 4; 6; 10] /\
+  option_map (fun n => map fst (g_edges n)) (gnode_at (cs_graph (cstate_after cinit c17_public_history)) 0)
+    = Some [1; 2; 3; 4; 5; 6; 7; 8; 9; 10].
+Proof. vm_compute. repeat split; reflexivity. Qed.
